@@ -38,13 +38,17 @@ claim("C03",
       "Lean 4 proof (mutual structural induction over the AST, table side conditions by decide) + differential correspondence + V8 oracle")
 
 claim("C05",
-      "Lean 4 theorems: the model of the sub-expression iterator (state machine (inner,index) incl. the hole-skipping loop) yields every immediate child "
-      "of every expression form (subExprs_complete); convert_scopes resolves every in-scope data field to the innermost scope index and nothing else, at every "
-      "position (convert_resolves, findScope_innermost). Tied to iter_sub_expr!/convert_scopes by differential runs through cfg hooks; an independent "
-      "resolver and the render-vs-reference oracle with colliding names run against the real code.",
-      "Trusted: Lean kernel; axioms ⊆ {propext, Classical.choice, Quot.sound}; differential tie; reference renderer; node runner. The scope-stack push/truncate "
-      "discipline of the tag traversal is exercised by the oracle, not yet modelled.",
-      "Lean 4 proof (structural induction / iterator invariant) + differential correspondence + reference-render oracle")
+      "Lean 4 theorems: expression level - the model of the sub-expression iterator yields every immediate child of every expression form (subExprs_complete); convert_scopes "
+      "resolves every in-scope data field to the innermost scope index and nothing else, at every position (convert_resolves, findScope_innermost). Tag level - "
+      "run_node_eq_spec / balanced (GE/Thm/C05Tag.lean): the stateful scope analysis of a template (one mutable stack: push slot-value names, handle own values, push wx:for "
+      "names, recurse, truncate) converts every dynamic value under exactly the script modules and the declarations of its enclosing elements, innermost last, for every "
+      "nesting and whatever earlier siblings declared, and restores the stack and the dynamic-tree counter after every element. Tied to iter_sub_expr!/convert_scopes by "
+      "differential runs through cfg hooks and to init_scopes_and_binding_map_keys by comparing, for every dynamic value of generated and directed templates, the converted "
+      "expression and the collected flag the real analysis left in the AST with the model's (corr:tag_scopes); an independent resolver and the render-vs-reference oracle "
+      "with colliding names, script modules in files and inline, slot-value scopes run against the real code.",
+      "Trusted: Lean kernel; axioms within {propext, Classical.choice, Quot.sound}; differential ties; reference renderer; node runner. The generation-time scope stack "
+      "(proc_gen/tag.rs) is exercised by the oracle, not modelled.",
+      "Lean 4 proof (structural induction / iterator invariant; state machine = lexical specification) + differential correspondence + reference-render oracle")
 claim("C04",
       "Lean 4 theorems for the proved part: the wx:if/elif/else branch selector statement is read by JavaScript as c1?1:c2?2:…:0 for all conditions "
       "(if_selector_derives, on top of gen_derives) and dash_to_camel name normalisation facts; models tied by correspondence streams (selector statement "
@@ -78,13 +82,16 @@ claim("C06",
       "proved (oracle only); RangeListManager is executed, not modelled.",
       "Lean 4 proof (partial: dependency-root coverage + value-level guard soundness of every expression form) + update-vs-create oracle under the real runtime")
 claim("C07",
-      "PARTIAL proof. Lean 4 theorems about the model of BindingMapCollector as a state machine over add/disable/disable_all: advertised_iff (advertised iff collected, never "
-      "disabled, map not disabled — in any order), disabled_stays_disabled, size_eq_count; model tied by differential runs through a cfg hook. Oracle: for every advertised "
-      "field, running exactly its updaters equals a fresh creation; fields read in dynamic subtrees / structural positions (independent analysis of the abstract "
-      "template) are never advertised.",
-      "Trusted: Lean kernel; axioms ⊆ {propext, Classical.choice, Quot.sound}; differential tie; independent use-site analysis; node runner. That the tag traversal reports every "
-      "unreachable use as disable_field is established by the oracle only.",
-      "Lean 4 proof (state-machine invariants by induction over operation sequences) + binding-map-vs-create oracle")
+      "PARTIAL proof. Lean 4 theorems: advertised_tag_iff (GE/Thm/C05Tag.lean) - over the model of the whole parse-side traversal and the collector, a data field is "
+      "advertised by the binding map iff the template has no include, the field occurs in no structural value (wx:if / wx:for / is / data / slot name ...) and in no value "
+      "inside a wx:if / wx:for / template-is / slot element, and it occurs in some other value; advertised_iff, disabled_stays_disabled, size_eq_count about the collector "
+      "state machine (any operation order). The traversal model is tied by corr:tag_scopes (collected flag of every value) and by comparing its advertised set with the "
+      "generated binding map of every template (corr:advertised-sets); the collector by differential runs through a cfg hook. Oracle: for every advertised field, running "
+      "exactly its updaters equals a fresh creation (incl. directed attribute family x hoisted-temporary expressions); fields read in dynamic subtrees / structural "
+      "positions (independent analysis of the abstract template) are never advertised.",
+      "Trusted: Lean kernel; axioms within {propext, Classical.choice, Quot.sound}; differential ties; independent use-site analysis; node runner. That the emitted updaters "
+      "re-evaluate every occurrence is established by the oracle only.",
+      "Lean 4 proof (traversal = lexical specification; collector invariants by induction over operation sequences) + binding-map-vs-create oracle")
 
 CSS_TRUST = ("Trusted: Lean kernel; axioms ⊆ {propext, Classical.choice, Quot.sound}; extractor of the separator table and writer shape; cssparser 0.34's tokenizer and "
              "per-token serializer (the model works on its token tree); differential tie of GE/Model/Css.lean (token streams of both outputs, warnings, source-map "
